@@ -69,7 +69,7 @@ def getattr(I, st, v, name):
                 yield st, e.cls
                 return
             if name == "__dict__":
-                yield st, st.alloc(DictE(dict(e.attrs)))
+                yield st, ObjDict(v)  # live view of the instance attributes
                 return
             m, where = I.class_lookup(e.cls, name)
             from .values import PropertyVal
@@ -128,6 +128,9 @@ def getattr(I, st, v, name):
             return
     if isinstance(v, HeapSeq):
         yield st, heapseq_method(I, st, v, name)
+        return
+    if isinstance(v, ObjDict):
+        yield st, objdict_method(I, st, v, name)
         return
     if isinstance(v, ModuleVal):
         yield st, module_attr(I, st, v, name)
@@ -1130,6 +1133,8 @@ def make_builtins(I):
             yield st, v.length()
         elif isinstance(v, HeapSeq):
             yield st, v.length(I, st)
+        elif isinstance(v, ObjDict):
+            yield st, len(v.attrs(st))
         elif isinstance(v, Ref):
             e = st.get(v)
             if e.kind in ("list", "deque", "set", "dict"):
@@ -1481,6 +1486,59 @@ def make_builtins(I):
 
     speclib.install(I, B)
     return B
+
+
+class ObjDict:
+    """obj.__dict__: a LIVE view of the instance attributes of a store object (reads and writes go to the object,
+    bypassing __setattr__ / properties, as in Python)"""
+
+    def __init__(self, ref):
+        self.ref = ref
+
+    def attrs(self, st):
+        return st.get(self.ref).attrs
+
+
+def objdict_method(I, st, od, name):
+    def key(x):
+        if not isinstance(x, str):
+            raise Unsupported("__dict__ access with a non-string key")
+        return x
+
+    def copy(I, st, a, k):
+        yield st, st.alloc(DictE(dict(od.attrs(st))))
+
+    def update(I, st, a, k):
+        if a:
+            src = a[0]
+            if isinstance(src, ObjDict):
+                items = dict(src.attrs(st))
+            elif isinstance(src, Ref) and st.get(src).kind == "dict":
+                items = dict(st.get(src).items)
+            else:
+                raise Unsupported("__dict__.update from %r" % (src,))
+            for kk, vv in items.items():
+                od.attrs(st)[key(kk)] = vv
+        for kk, vv in k.items():
+            od.attrs(st)[kk] = vv
+        yield st, None
+
+    def get(I, st, a, k):
+        yield st, od.attrs(st).get(key(a[0]), a[1] if len(a) > 1 else None)
+
+    def items(I, st, a, k):
+        yield st, st.alloc(ListE([(kk, vv) for kk, vv in od.attrs(st).items()]))
+
+    def keys(I, st, a, k):
+        yield st, st.alloc(ListE(list(od.attrs(st))))
+
+    def values(I, st, a, k):
+        yield st, st.alloc(ListE(list(od.attrs(st).values())))
+
+    tbl = dict(copy=copy, update=update, get=get, items=items, keys=keys, values=values)
+    if name not in tbl:
+        raise Unsupported("__dict__ method " + name)
+    return bi("__dict__." + name, tbl[name])
 
 
 class PickleBlob:
